@@ -317,3 +317,26 @@ pub fn silence_stdout() {
         }
     }
 }
+
+/// From inside a CPI handler: run a real program `entry` as the callee.  The callee sees the infos
+/// in the order of the instruction's metas, with the metas' signer/writable flags (a PDA signer of the
+/// caller is whatever the caller's instruction says), sharing the caller's account cells.
+pub fn dispatch(
+    entry: for<'a> fn(&Pubkey, &'a [AccountInfo<'a>], &[u8]) -> ProgramResult,
+    instruction: &Instruction,
+    account_infos: &[AccountInfo],
+) -> ProgramResult {
+    let mut infos: Vec<AccountInfo<'static>> = Vec::new();
+    for m in &instruction.accounts {
+        let Some(a) = account_infos.iter().find(|a| *a.key == m.pubkey) else {
+            return Err(anchor_lang::solana_program::program_error::ProgramError::NotEnoughAccountKeys);
+        };
+        let mut c = a.clone();
+        c.is_signer = m.is_signer;
+        c.is_writable = m.is_writable;
+        // SAFETY: lifetime erasure only; the clone shares the Rc cells and the key/owner pointers of
+        // an info that outlives this call.
+        infos.push(unsafe { std::mem::transmute::<AccountInfo<'_>, AccountInfo<'static>>(c) });
+    }
+    call(entry, &instruction.program_id, infos, &instruction.data)
+}
